@@ -39,6 +39,30 @@ pub type SimPersister = KVVPersister<CloudKVVStore<MemoryKVVStore>, JsonFormat>;
 /// `world backup`: the node persists through `BackupPersister<main, backup>`; the main side is a plain
 /// in-memory KVV store, the backup side is the transactional `SimPersister` every other world uses alone
 pub type MainPersister = KVVPersister<MemoryKVVStore, JsonFormat>;
+/// `world redb`: the main side of the composite is the on-disk redb store (vlsd's default local store);
+/// after every request a crash image of its directory must restore the same signer
+pub type RedbPersister = KVVPersister<vls_persist::kvv::redb::RedbKVVStore, JsonFormat>;
+
+fn scratch_dir() -> tempfile::TempDir {
+    if let Ok(d) = std::env::var("VERIF_TMP") {
+        return tempfile::tempdir_in(d).expect("tempdir");
+    }
+    if std::path::Path::new("/dev/shm").is_dir() {
+        if let Ok(d) = tempfile::tempdir_in("/dev/shm") {
+            return d;
+        }
+    }
+    tempfile::tempdir().expect("tempdir")
+}
+
+fn copy_dir(from: &std::path::Path, to: &std::path::Path) {
+    std::fs::create_dir_all(to).unwrap();
+    for e in std::fs::read_dir(from).unwrap() {
+        let e = e.unwrap();
+        let dst = to.join(e.file_name());
+        if e.file_type().unwrap().is_dir() { copy_dir(&e.path(), &dst); } else { std::fs::copy(e.path(), dst).unwrap(); }
+    }
+}
 
 const CHANNEL_VALUE: u64 = 3_000_000;
 const INITIAL_COMMITMENT_NUMBER: u64 = (1 << 48) - 1;
@@ -72,6 +96,8 @@ pub struct Sim {
     /// fault injection: while set, writes to the (backup) store / to the main store are refused
     pub fail_store: Arc<std::sync::atomic::AtomicBool>,
     pub fail_main: Arc<std::sync::atomic::AtomicBool>,
+    /// `world redb`: the on-disk main side and its directory
+    pub redb: Option<(Arc<RedbPersister>, Arc<tempfile::TempDir>)>,
     /// `world h`
     pub hworld: bool,
     /// tracker height when the simulator finished its set-up
@@ -200,12 +226,23 @@ impl Sim {
             if first_op == "world backup" { Some(Arc::new(KVVPersister(MemoryKVVStore::new([7u8; 16]), JsonFormat))) } else { None };
         let fail_store = Arc::new(std::sync::atomic::AtomicBool::new(false));
         let fail_main = Arc::new(std::sync::atomic::AtomicBool::new(false));
-        let node_persister: Arc<dyn Persist> = match &main {
-            Some(m) => Arc::new(vls_persist::backup_persister::BackupPersister::new(
+        let redb: Option<(Arc<RedbPersister>, Arc<tempfile::TempDir>)> = if first_op == "world redb" {
+            let dir = scratch_dir();
+            let store = vls_persist::kvv::redb::RedbKVVStore::new(dir.path());
+            Some((Arc::new(KVVPersister(store, JsonFormat)), Arc::new(dir)))
+        } else {
+            None
+        };
+        let node_persister: Arc<dyn Persist> = match (&main, &redb) {
+            (Some(m), _) => Arc::new(vls_persist::backup_persister::BackupPersister::new(
                 super::tap::Tap::with_fail(m.clone(), fail_main.clone()),
                 super::tap::Tap::with_fail(persister.clone(), fail_store.clone()),
             )),
-            None => Arc::new(super::tap::Tap::with_fail(persister.clone(), fail_store.clone())),
+            (None, Some((r, _))) => Arc::new(vls_persist::backup_persister::BackupPersister::new(
+                super::tap::Tap::with_fail(r.clone(), fail_main.clone()),
+                super::tap::Tap::with_fail(persister.clone(), fail_store.clone()),
+            )),
+            (None, None) => Arc::new(super::tap::Tap::with_fail(persister.clone(), fail_store.clone())),
         };
         persister.enter().unwrap();
         let node = Arc::new(Node::new(config, &seed, vec![], services(node_persister.clone(), clock.clone(), perm)));
@@ -216,7 +253,8 @@ impl Sim {
         // three blocks so that the channel has a chain to live on
         {
             let mut tracker = node_ctx.node.get_tracker();
-            for _ in 0..3 {
+            // (`world bare`: none — the tracker remembers no header below its tip, as fresh from a checkpoint)
+            for _ in 0..(if first_op == "world bare" { 0 } else { 3 }) {
                 let (header, proof) = make_testnet_header(tracker.tip(), tracker.height());
                 tracker.add_block(header, proof).unwrap();
             }
@@ -281,6 +319,7 @@ impl Sim {
             main,
             fail_store,
             fail_main,
+            redb,
             hworld,
             base_height,
         }
@@ -722,7 +761,12 @@ impl Sim {
                 make_testnet_header(&tip, tracker.height())
             } else {
                 // a block that does not build on the tip
-                let old = tracker.headers().get(1).cloned().unwrap_or(tip.clone());
+                let old = tracker.headers().get(1).cloned().unwrap_or_else(|| {
+                    // no remembered header to build on: a header that is not the tip's (different nonce)
+                    let mut h = tip.0.clone();
+                    h.nonce = h.nonce.wrapping_add(1);
+                    Headers(h, tip.1)
+                });
                 make_testnet_header(&Headers(old.0, old.1), tracker.height())
             };
             match tracker.add_block(header, proof) {
@@ -758,6 +802,9 @@ impl Sim {
             let mut tracker = node.get_tracker();
             let prev = match s.prev_tips.last() {
                 Some(p) => p.clone(),
+                // nothing of our own to remove: a bad removal is still put to the tracker (with the tip itself as
+                // the supplied previous headers and the proof of a block that is not the tip); it must refuse
+                None if !good => tracker.tip().clone(),
                 None => return Err(Status::invalid_argument("nothing to remove")),
             };
             // re-make the proof of the tip block (deterministic given prev tip and height)
@@ -843,6 +890,13 @@ impl Sim {
     fn restart_with(&mut self, lose_main: bool) -> (Outcome, usize) {
         use std::sync::atomic::Ordering;
         let mut recovery = None;
+        if let Some((r, _)) = &self.redb {
+            assert!(!lose_main, "mainloss outside world backup");
+            self.node_persister = Arc::new(vls_persist::backup_persister::BackupPersister::new(
+                super::tap::Tap::with_fail(r.clone(), self.fail_main.clone()),
+                super::tap::Tap::with_fail(self.persister.clone(), self.fail_store.clone()),
+            ));
+        }
         if self.main.is_some() {
             // a process start builds a new composite (its "initial restore complete" flag starts false)
             if lose_main {
@@ -872,8 +926,21 @@ impl Sim {
         }
     }
 
-    /// `world backup`: restore a second node from a copy of the MAIN store alone
+    /// `world backup`: restore a second node from a copy of the MAIN store alone;
+    /// `world redb`: from a crash image (a copy of the database directory taken while it is open)
     pub fn restore_shadow_main(&self) -> Option<Result<Arc<Node>, String>> {
+        if let Some((_, dir)) = &self.redb {
+            let image = scratch_dir();
+            copy_dir(dir.path(), image.path());
+            let r = std::panic::catch_unwind(std::panic::AssertUnwindSafe(|| {
+                let store = vls_persist::kvv::redb::RedbKVVStore::new(image.path());
+                let p2: Arc<dyn Persist> = Arc::new(KVVPersister(store, JsonFormat));
+                let nodes = p2.get_nodes().map_err(|e| format!("{:?}", e))?;
+                let (node_id, entry) = nodes.into_iter().next().ok_or("no node in store".to_string())?;
+                Node::restore_node(&node_id, entry, &self.seed, services(p2.clone(), self.clock.clone(), self.perm)).map_err(|e| format!("{:?}", e))
+            }));
+            return Some(match r { Ok(r) => r, Err(_) => Err("restore from the crash image aborted".into()) });
+        }
         let m = self.main.as_ref()?;
         let kvvs: Vec<KVV> = m.0.get_prefix("").unwrap().collect();
         Some(self.restore_from(kvvs))
@@ -964,7 +1031,7 @@ pub fn exec_op(sim: &mut Sim, op: &str) -> (Outcome, usize) {
     if let Some(rest) = op.strip_prefix("failw ") {
         use std::sync::atomic::Ordering;
         let (side, inner) = rest.split_once(' ').unwrap_or(("s", ""));
-        let flag = if side == "m" { assert!(sim.main.is_some(), "failw m outside world backup"); sim.fail_main.clone() } else { sim.fail_store.clone() };
+        let flag = if side == "m" { assert!(sim.main.is_some() || sim.redb.is_some(), "failw m outside world backup/redb"); sim.fail_main.clone() } else { sim.fail_store.clone() };
         flag.store(true, Ordering::Relaxed);
         let r = exec_op(sim, inner);
         flag.store(false, Ordering::Relaxed);
